@@ -292,8 +292,16 @@ def cancelThen (fix : Fix) (s : St) (opId : Nat) (op : Op) : St :=
     | (s, some .cancelledError) => s.emit (.ret s.now opId (abortRes op))
     | (s, some r) => s.emit (.ret s.now opId r)
 
+def isResume : Handle → Bool
+  | .resume .. => true
+  | _ => false
+
+/-- An operation is in the middle of its cancellation: it awaits the loop task, or the loop task has ended and the
+operation's continuation is queued. -/
+def St.cancelling (s : St) : Bool := s.waiting.isSome || s.ready.any isResume
+
 def startOp (fix : Fix) (s : St) (opId : Nat) (op : Op) : St :=
-  if s.waiting.isSome then { s with overlap := true } else
+  if s.cancelling then { s with overlap := true } else
   match op with
   | .malformed => s.emit (.ret s.now opId (.refused .invalidRequest))
   | .patchSeq vs ds _ =>
